@@ -78,6 +78,9 @@ type headerWrite struct {
 	// write, valParam the helper's parameter that carries the value
 	inner    *headerWrite
 	valParam *ssa.Parameter
+	// generic: the write of a helper whose value is one of its parameters; it is represented by the synthetic writes
+	// at the helper's call sites
+	generic bool
 }
 
 // headerWrites is the module-wide census of response/request header writes.
@@ -115,6 +118,42 @@ func (c *Ctx) headerWrites() []*headerWrite {
 	// constant name is a write of that header in the caller
 	var synth []*headerWrite
 	for _, hw := range out {
+		if hw.name != "" && hw.op != "map" {
+			// constant name, value handed in: setWithVary(h, key, val, vary) { h.Set(key, val); h.Add("Vary", vary) }
+			valPar, isVP := hw.val.(*ssa.Parameter)
+			mapPar, isMP := hw.hmap.(*ssa.Parameter)
+			if !isVP || !isMP || valPar.Parent() != hw.f || mapPar.Parent() != hw.f {
+				continue
+			}
+			vi, mi := -1, -1
+			for i, q := range hw.f.Params {
+				if q == valPar {
+					vi = i
+				}
+				if q == mapPar {
+					mi = i
+				}
+			}
+			n := 0
+			for _, f := range c.libFuncs() {
+				an.AllInstrs(f, func(in ssa.Instruction) {
+					cc := an.CallOf(in)
+					if cc == nil || an.StaticCallee(cc) != hw.f {
+						return
+					}
+					args := an.CallArgs(cc)
+					if vi < 0 || mi < 0 || vi >= len(args) || mi >= len(args) {
+						return
+					}
+					n++
+					synth = append(synth, &headerWrite{f: f, in: in, op: hw.op, name: hw.name, hmap: args[mi], val: args[vi], inner: hw, valParam: valPar})
+				})
+			}
+			if n > 0 {
+				hw.generic = true
+			}
+			continue
+		}
 		if hw.name != "" || hw.op == "map" {
 			continue
 		}
@@ -159,7 +198,13 @@ func (c *Ctx) headerWrites() []*headerWrite {
 			})
 		}
 	}
-	return append(out, synth...)
+	var all []*headerWrite
+	for _, hw := range out {
+		if !hw.generic {
+			all = append(all, hw)
+		}
+	}
+	return append(all, synth...)
 }
 
 func isHTTPHeader(t types.Type) bool {
